@@ -138,6 +138,10 @@ MUTANTS: dict[str, dict[str, list[tuple[str, str, str]]]] = {
         return self._instance""")],
     },
     'C06': {
+        'cache-file-written-in-place-again': [('forml/provider/feed/alchemy.py', """                frame.to_parquet(temp, index=False)
+                temp.replace(path)
+""", """                frame.to_parquet(path, index=False)
+""")],
         'literal-hash-collides-again': [('forml/io/dsl/_struct/series.py',
                                          "return super().__hash__() ^ hash(repr(self.value))", 'return super().__hash__()')],
         'cache-key-forgets-literals': [('forml/provider/feed/alchemy.py', "compile_kwargs={'literal_binds': True}",
